@@ -185,9 +185,29 @@ func ObjectToBag(s *slip.Scope, obj slip.Object, depth int) (v any) {
 			slip.TypePanic(s, depth, "value", val, "nil", "t", ":false", "integer", "float", "string", "symbol", "gi::time",
 				"list", "hash-table", "bag-instance")
 		}
-		v = val.Any
+		// A copy, the two bags must not share arrays and maps.
+		v = dupData(val.Any)
 	default:
 		v = val.Simplify()
 	}
 	return
+}
+
+// dupData makes a deep copy of bag data.
+func dupData(data any) any {
+	switch td := data.(type) {
+	case []any:
+		dup := make([]any, len(td))
+		for i, v := range td {
+			dup[i] = dupData(v)
+		}
+		return dup
+	case map[string]any:
+		dup := make(map[string]any, len(td))
+		for k, v := range td {
+			dup[k] = dupData(v)
+		}
+		return dup
+	}
+	return data
 }
